@@ -94,6 +94,8 @@ func c06Run(x *core.Ctx) {
 				mt = mutateKeywordString(r, toks)
 			case 2:
 				mt = mutateVarInConst(r, toks)
+			case 3:
+				mt = mutateBrokenLexeme(r, toks)
 			default:
 				mt = mutateTokens(r, toks)
 			}
